@@ -7,7 +7,7 @@ META = {
             "its (live) type allows; P(T): every primitive type at its width; the reference side is RefDec on the "
             "PINNED layout. A path is non-trivial when the reference outcome was computed and compared.",
     "bounds": {
-        "quick": "all 102 primitive types; every generated shape of ALL structure types and of a seed-rotated sixth of the 468 command/response areas; the encrypted-parameter shapes of all 117 command codes; "
+        "quick": "all 102 primitive types; every generated shape of ALL structure types and of a seed-rotated sixth of the 468 command/response areas; the plain and the encrypted-parameter shapes of all 117 command codes; "
                  "all command/response shapes (0-3 sessions, decrypt/encrypt on any session, failed and bad-tag responses) of 9 "
                  "seed-rotated command codes plus a fixed core (Startup, GetRandom, CreatePrimary, GetCapability, "
                  "NV_Read, PCR_Read, StartAuthSession)",
@@ -99,9 +99,9 @@ def partitions(tier, seed):
             if cc in ccs:
                 continue
             for label, data in G.commands(cc):
-                if label in ("decrypt", "decrypt-2nd"):
+                if label in ("nosess", "decrypt", "decrypt-2nd"):
                     parts.extend(shape_parts("C01", PROP, sp.cmd_key(), "%s-%s" % (sp.cc_name(cc), label), data))
             for label, enc, data in G.responses(cc):
-                if label in ("encrypt", "encrypt-1st"):
+                if label in ("nosess", "encrypt", "encrypt-1st"):
                     parts.extend(shape_parts("C01", PROP, sp.rsp_key(), "%s-%s" % (sp.cc_name(cc), label), data, cc=cc, enc=enc))
     return parts
